@@ -5,7 +5,8 @@
 (* ops; the program text is chosen LAZILY - when a frame reaches a position of a contract that has no  *)
 (* op yet, the next op is picked from `Alphabet` (or the code is declared finished) and stays fixed -  *)
 (* so every behaviour is "one program + its execution", and TLC's exploration enumerates programs.     *)
-(* Words are abstract values (strings): "0" "1" "2", "@x" = address of account x, "sha(v)" "rip(v)" =   *)
+(* Words are abstract values (strings): "0".."4", "@x" = address of account x, "ch@x" = code hash of x, *)
+(* "sha(v)" "rip(v)" =                                                                                  *)
 (* precompile images.  No 256-bit arithmetic, no gas numbers: what is modelled is what AnnChain edited *)
 (* around - frames, snapshots/revert, static mode, depth limit, return data, value transfer, creation, *)
 (* self-destruct, precompile dispatch, and the execution budget.                                       *)
@@ -163,7 +164,7 @@ PreRes(p, x) ==
     [] p = "P7" -> [ok |-> x = "0", rd |-> IF x = "0" THEN RD64("0", "0") ELSE RDEmpty]   \* bn256 mul
     [] p = "P8" -> [ok |-> FALSE, rd |-> RDEmpty]                              \* pairing: length not k*192
 
-IsWrite(o) == o.op \in {"SSTORE", "LOG", "CREATE", "CREATE2", "SELFDESTRUCT"}
+IsWrite(o) == o.op \in {"SSTORE", "LOG", "CREATE", "CREATE2", "SELFDESTRUCT"} \/ (o.op = "EXTCODEHASH" /\ o.k \in Slots)
 
 (* CALL / CALLCODE / DELEGATECALL / STATICCALL *)
 DoCall(M, o) ==
@@ -230,6 +231,16 @@ Apply(M, o) ==
          [] o.op = "ADDRESS"   -> SetTop(M, [f EXCEPT !.pc = @ + 1, !.acc = "@" \o f.self])
          [] o.op = "CALLVALUE" -> SetTop(M, [f EXCEPT !.pc = @ + 1, !.acc = ToString(f.value)])
          [] o.op = "CDLOAD"    -> SetTop(M, [f EXCEPT !.pc = @ + 1, !.acc = f.input])
+         [] o.op = "EXTCODEHASH" ->
+              \* EIP-1052: 0 for an EMPTY account (nonce 0, balance 0, no code) whether or not a state object exists
+              \* (a zero-value call to a precompile or, before EIP-158, to a fresh address leaves such an object),
+              \* else the hash of its code, "ch@t" (keccak256 of nothing for a funded account without code).
+              \* With a slot in k the word is also stored there (exposes it to two-op programs).
+              LET h  == IF IsEmptyAcct(Get(M.st, o.t)) THEN "0" ELSE "ch@" \o o.t
+                  f2 == [f EXCEPT !.pc = @ + 1, !.acc = h]
+                  a  == Get(M.st, f.self)
+              IN IF o.k \in Slots THEN SetTop([Ms EXCEPT !.st = Put(M.st, f.self, [a EXCEPT !.stor[o.k] = h])], f2)
+                 ELSE SetTop(M, f2)
          [] o.op = "RDCOPY"    -> IF f.rd.sz < 32 THEN Finish(M, "fail", RDEmpty)       \* errReturnDataOutOfBounds
                                   ELSE SetTop(M, [f EXCEPT !.pc = @ + 1, !.acc = f.rd.a])
          [] o.op \in {"CALL", "CALLCODE", "DELEGATECALL", "STATICCALL"} -> DoCall(M, o)
